@@ -2,7 +2,11 @@
 conversion of parglare trees."""
 import contextlib
 import io
+import os
+import signal
 import sys
+
+WALL_LIMIT_S = float(os.environ.get('VERIF_PARSE_WALL_LIMIT_S', '10'))
 
 import parglare
 from parglare import GLRParser, Grammar, Parser
@@ -66,24 +70,42 @@ def guard_steps(parser, budget=3000):
         return parser
     box = {"n": 0, "budget": budget}
     parser._verif_steps = box
-    name = "_reduce" if hasattr(parser, "_do_reductions") else "_call_reduce_action"
-    orig = getattr(parser, name)
+    glr = hasattr(parser, "_do_reductions")
+    names = ["_reduce", "_do_shifts", "_do_error_recovery", "default_error_recovery", "_next_token", "_next_tokens"] \
+        if glr else ["_call_reduce_action", "_call_shift_action", "_do_recovery", "default_error_recovery",
+                     "_next_token", "_next_tokens"]
 
-    def counted(*a, **kw):
-        box["n"] += 1
-        if box["n"] > box["budget"]:
-            raise StepBudgetExceeded(box["n"])
-        return orig(*a, **kw)
-    setattr(parser, name, counted)
+    def wrap(orig):
+        def counted(*a, **kw):
+            box["n"] += 1
+            if box["n"] > box["budget"]:
+                raise StepBudgetExceeded(box["n"])
+            return orig(*a, **kw)
+        return counted
+    for name in names:
+        setattr(parser, name, wrap(getattr(parser, name)))
     parser._verif_guarded = True
     return parser
+
+
+class WallClockExceeded(StepBudgetExceeded):
+    pass
+
+
+def _alarm(signum, frame):
+    raise WallClockExceeded("wall clock")
 
 
 def outcome(fn, *a, **kw):
     """('ok', result) | ('syntax', exc) | ('exc', exc) | ('budget', exc)"""
     owner = getattr(fn, "__self__", None)
-    if owner is not None and getattr(owner, "_verif_guarded", False):
+    guarded = owner is not None and getattr(owner, "_verif_guarded", False)
+    if guarded:
         owner._verif_steps["n"] = 0
+        # second line of defence for loops that make no counted step (a generous wall-clock limit per
+        # call; the calls of the scopes take well under a millisecond)
+        signal.signal(signal.SIGALRM, _alarm)
+        signal.setitimer(signal.ITIMER_REAL, WALL_LIMIT_S)
     try:
         return ("ok", fn(*a, **kw))
     except StepBudgetExceeded as e:
@@ -94,6 +116,9 @@ def outcome(fn, *a, **kw):
         return ("exc", e)
     except Exception as e:  # noqa
         return ("exc", e)
+    finally:
+        if guarded:
+            signal.setitimer(signal.ITIMER_REAL, 0)
 
 
 class TooDeep(Exception):
